@@ -1272,7 +1272,8 @@ def getter_width_rule(ctx, rid, scope, minimum):
             continue
         seen.add((fn.name, fn.sig))
         body = fn.nodes.get(fn.body, {})
-        ch = body.get('ch', [])
+        ch = [c_ for c_ in body.get('ch', []) if fn.nodes[c_]['k'] != 'NullStmt' and
+              not (fn.nodes[c_].get('ck') == 'ToVoid' and fn.val(fn.nodes[c_]['ch'][0]) is not None)]     # statements without effect
         if body.get('k') != 'CompoundStmt' or len(ch) != 1 or fn.nodes[ch[0]]['k'] != 'ReturnStmt' or fn.nodes[ch[0]].get('val') is None:
             continue
         val = fn.nodes[ch[0]]['val']
